@@ -106,7 +106,9 @@ fn classify(e: &Expr) -> (bool, Vec<&'static str>) {
 fn power_boundary() -> impl Strategy<Value = QCase> {
     const BASE: [(&str, usize); 7] = [("m", 1), ("s", 2), ("A", 3), ("K", 4), ("mol", 5), ("cd", 6), ("B", 7)];
     let big = || prop_oneof![Just(2i64), Just(3), Just(255), Just(256), Just(32767), Just(32768), Just(46340), Just(46341), Just(65535), Just(65536), Just(65537), Just(1 << 20), Just((1 << 31) - 1), Just(-32768), Just(-65536), Just(-46341)];
-    (0usize..7, big(), big(), prop_oneof![Just("1"), Just("-1"), Just("0"), Just("1.0")], prop::option::weighted(0.3, prop_oneof![Just(" + 1 s"), Just(" * 1 m"), Just(" to kg")]))
+    // the exponent stays <= 2^20 in size: the evaluator multiplies |exponent| times
+    let exp = || big().prop_filter("exponent of bounded size", |b| b.abs() <= 1 << 20);
+    (0usize..7, big(), exp(), prop_oneof![Just("1"), Just("-1"), Just("0"), Just("1.0")], prop::option::weighted(0.3, prop_oneof![Just(" + 1 s"), Just(" * 1 m"), Just(" to kg")]))
         .prop_map(|(ui, a, b, x, tail)| {
             let (u, di) = BASE[ui];
             let query = format!("({} {}^{})^{}{}", x, u, a, b, tail.unwrap_or(""));
